@@ -28,7 +28,14 @@ RULE = ("family nm: 8 cost families x seeds in/on/over the bounds x 7 iteration 
         "optimum poling period, after histories); "
         "11 crystals x e->oo/eo/oe x azimuths x in-window wavelengths, collinear, PRIOR crystal angle in {180, 160, -75, -179, 0} deg u (-180,180] "
         "(angle, n/6 cases; 1/3 of them also through assign_optimum_theta, SPDC::with_optimum_crystal_theta, try_as_optimum; "
-        "statement clause + bit-for-bit independence of the prior angle on every route); n/25 cases through the SPDCConfig "
+        "statement clause + bit-for-bit independence of the prior angle on every route); WARM START: every phase-matchable angle case "
+        "again from 4 prior angles at / next to the answer (own optimum to the last bit | through CrystalConfig's 4 decimals | "
+        "rad-deg-rad | typed with 1-6 decimals | bisected root; answer + d, d log-uniform 1e-9..1e-1 of the interval, both signs; 2 x "
+        "prior half phase log-uniform 1e-5..1e-1 around the statement's 1e-3), one of 6 routes each (optimum_theta with K "
+        "opt_theta_tab, assign_optimum_theta, SPDC::{assign_,with_}optimum_crystal_theta, optimum_crystal_theta, try_as_optimum), "
+        "clause failures not shown from prior angle 0 get the signature suffix /prior-dependent; n/20 poling warm cases x 3 stored "
+        "polings at / next to the optimum period (same kinds, stored sign right or flipped, 9 apodizations) through 5 routes with "
+        "the statement's clauses and K opt_period_tab; n/25 cases through the SPDCConfig "
         "route (\"poling_period_um\": \"auto\" / \"theta_deg\": \"auto\")")
 RESIDUAL = ("convergence of the simplex on the non-collinear period problem and on the angle problem (runtime numerics; searched, "
             "not proved)")
